@@ -50,6 +50,14 @@ CLAIMED = {
         "source by the mini translator; correspondence on boundaries + dense tick prefix",
         "float division in TimeTicks.pythonize is modelled as exact (argued in DESIGN.md, sampled); x690 Integer codec modelled",
     ),
+    "C12": (
+        "proof (partial): first datagram of a fresh client is a discovery probe in every history; every request carries the "
+        "discovered engine id (security and default context engine id); refused discovery replies (foreign msg id / no bindings) "
+        "cache nothing; for every history without agent reboot and arbitrary clock advances every request carries exactly the "
+        "agent's boots and engine time (inside the 150 s window). The full statement with reboots is proved false "
+        "(C12_reboot_counterexample) and recorded as an open known finding; tied by histories on a shared virtual time line",
+        "partial: no clock drift between client and agent; reboots are a known finding; engine-time wrap at 2^31 not modelled",
+    ),
     "C13": (
         "proof (partial): for every outcome sequence, retries and timeout: <= retries identical transmissions, first reply inside "
         "its window returned unmodified at its arrival time after k full timeouts, Timeout iff retries unanswered attempts in a row "
